@@ -1219,6 +1219,23 @@ func wireMain(args []string) error {
 		}
 		forceDynType, forceDynEmpty = -1, false
 	}
+	if *prefix {
+		// packages behind a token the library has no layout for (it reads them as "everything that is
+		// there"): whatever has arrived so far, such a package is never complete before its message ends
+		for _, tok := range []byte{0x01, 0x0F, 0x7A, 0xA1, 0xC8, 0xFC} {
+			r.scn()
+			body := randBytes(r.rng, 1+r.rng.Intn(40))
+			counts := map[string]int{}
+			for k := 0; k <= len(body); k++ {
+				for _, eom := range []bool{false, true} {
+					p, _ := tds.LookupPackage(tds.Token(tok))
+					st, _ := readPkgE(p, body[:k], eom && k > 0)
+					counts[st]++
+				}
+			}
+			r.tr.Emit(Ev{"ev": "PrefixTL", "token": int(tok), "n": 2 * (len(body) + 1), "need": counts["need"], "ok": counts["ok"], "err": counts["err"], "panic": counts["panic"]})
+		}
+	}
 	for i := 0; i < *count*3; i++ {
 		r.format(*prefix)
 	}
